@@ -153,6 +153,9 @@ impl C09 {
         fams.add("near multiples: (k +- e) a -> a;b", vec![g, 6, 6, NEAR_K.len() as u64, 5]);
         fams.add("near multiples in the second stage: 1 a + (k +- e) b -> a;b;c", vec![big.len() as u64, 6, 6, 6, NEAR_K.len() as u64, 5]);
         fams.add("automatic duration breakdown", vec![durs.len() as u64]);
+        // one Context: a time value, then a further definitions file that defines one of the breakdown
+        // units again, then time values: the breakdown obeys the law for the units as they are now
+        fams.add("duration breakdown after a further load redefines a breakdown unit", vec![RELOADS.len() as u64, RELOAD_DURS.len() as u64, 2]);
         C09 { fams, groups, big, vals, durs, time_units, long_lens, ctx: Lazy::new() }
     }
 
@@ -234,6 +237,8 @@ impl C09 {
 }
 
 const NEAR_K: [i64; 3] = [1, 3, 1000];
+const RELOADS: [&str; 5] = ["week 5 day\n", "year 365 day\n", "day 25 hour\n", "hour 50 minute\n", "minute 100 second\n"];
+const RELOAD_DURS: [&str; 6] = ["12 day", "400 day", "90061.5 s", "-36 hour", "1|3 year", "3e9 s"];
 const NONCONF_VALS: [&str; 3] = ["3", "0", "(5 - 5)"];
 
 fn rat_text(r: &Rat) -> String {
@@ -289,7 +294,7 @@ impl Space for C09 {
         Meta {
             id: "C09",
             level: "exploration",
-            rule: "for every dimensionality with >= 2 positive exact units, up to 6 units (largest, smallest, median, second smallest, a kilo-prefixed and a plural spelling): all ordered lists of length 2 and 3 with repetition x 11-13 rational values (0, +-1, +-1/3, +-7.5, +-1e-9, +-123456789.123, +-1e40); lists of length 4 (thorough 4-6) for time/length/mass/volume; every position of a non-conformable member and a non-conformable value, for the values 3, 0 and (5 - 5); time values for the automatic year/week/day/hour/minute/second breakdown (67 fixed ones plus k x unit +- {0, 1e-9, 1/2, frac/2, frac} s for k in {1,2,10,1000} and every breakdown unit); near-multiple values (k +- e) a -> a;b for every group and ordered pair, k in {1,3,1000}, e in {half the fractional part of a's base-unit value, 1e-12}, and the same in the second stage of 3-unit lists (a quotient computed on truncated operands is off by one exactly there). Oracle: the statement's four clauses on raw part values with unit values from the registry dump. Non-trivial = a law was judged; distinct by query text".into(),
+            rule: "for every dimensionality with >= 2 positive exact units, up to 6 units (largest, smallest, median, second smallest, a kilo-prefixed and a plural spelling): all ordered lists of length 2 and 3 with repetition x 11-13 rational values (0, +-1, +-1/3, +-7.5, +-1e-9, +-123456789.123, +-1e40); lists of length 4 (thorough 4-6) for time/length/mass/volume; every position of a non-conformable member and a non-conformable value, for the values 3, 0 and (5 - 5); time values for the automatic year/week/day/hour/minute/second breakdown (67 fixed ones plus k x unit +- {0, 1e-9, 1/2, frac/2, frac} s for k in {1,2,10,1000} and every breakdown unit); near-multiple values (k +- e) a -> a;b for every group and ordered pair, k in {1,3,1000}, e in {half the fractional part of a's base-unit value, 1e-12}, and the same in the second stage of 3-unit lists (a quotient computed on truncated operands is off by one exactly there). Plus histories on one context: (optionally a time query,) a further load that defines year/week/day/hour/minute again, then 6 time values, judged with the unit values the context has now. Oracle: the statement's four clauses on raw part values with unit values from the registry dump. Non-trivial = a law was judged; distinct by query text".into(),
             assumptions: vec![
                 "negative-valued units (delisle_absolute, wire gauges g00..) are excluded: the sign clause is ill-posed for them".into(),
                 "any error kind counts as a refusal".into(),
@@ -302,6 +307,10 @@ impl Space for C09 {
         self.fams.total()
     }
     fn describe(&self, idx: u64) -> String {
+        let (f, d) = self.fams.locate(idx);
+        if f == self.fams.fams.len() - 1 {
+            return format!("one context: {}load `{}`, then `{}`", if d[2] == 1 { "a time query, " } else { "" }, RELOADS[d[0] as usize].trim(), RELOAD_DURS[d[1] as usize]);
+        }
         match self.plan(idx) {
             Some((q, _, _)) => q,
             None => "(skipped: fewer units in this group / same group)".into(),
@@ -317,6 +326,42 @@ impl Space for C09 {
         self.ctx.clear();
     }
     fn run(&mut self, idx: u64) -> CaseOut {
+        {
+            let (f, d) = self.fams.locate(idx);
+            if f == self.fams.fams.len() - 1 {
+                let (reload, q) = (RELOADS[d[0] as usize], RELOAD_DURS[d[1] as usize]);
+                let mut ctx = fresh_ctx();
+                if d[2] == 1 {
+                    // ask once before the load (anything the breakdown remembers is filled now)
+                    let _ = eval_q(&ctx, q);
+                }
+                let _ = ctx.load_definitions(reload);
+                let mut out = CaseOut::ok("duration breakdown after a load").key(hash64(&("reload", reload, q, d[2])));
+                let names = ["year", "week", "day", "hour", "minute", "second"];
+                let units: Option<Vec<LU>> = names.iter().map(|n| ctx.lookup(n).and_then(|v| numeric_to_rat(&v.value)).map(|v| LU { name: n.to_string(), value: v })).collect();
+                let units = match units {
+                    Some(u) => u,
+                    None => return out.viol("harness: breakdown unit not exact after the load", reload.to_string()),
+                };
+                match eval_q(&ctx, q) {
+                    Ok(QueryReply::Duration(dr)) => {
+                        let total = dr.raw.raw_value.as_ref().and_then(|r| numeric_to_rat(&r.value));
+                        let parts: Result<Vec<Rat>, String> = [&dr.years, &dr.weeks, &dr.days, &dr.hours, &dr.minutes, &dr.seconds].iter().map(|p| part_value(p)).collect();
+                        match (total, parts) {
+                            (Some(total), Ok(parts)) => {
+                                if let Err((sig, det)) = law(&total, &units, &parts) {
+                                    out = out.viol(format!("{} (after a further load)", sig), format!("load `{}`{} then `{}`: {}; parts {:?}", reload.trim(), if d[2] == 1 { " after one earlier time query" } else { "" }, q, det, parts.iter().map(|p| p.to_string()).collect::<Vec<_>>()));
+                                }
+                            }
+                            (t, p) => out = out.viol("duration reply not readable", format!("{:?} {:?}", t.map(|x| x.to_string()), p.err())),
+                        }
+                    }
+                    Ok(o) => out = out.viol("time value not shown as a duration after a load", format!("`{}` -> {}", q, reply_kind(&o))),
+                    Err(e) => out = out.viol("time value refused after a load", format!("`{}`: {}", q, e)),
+                }
+                return out;
+            }
+        }
         let (q, want, is_dur) = match self.plan(idx) {
             Some(p) => p,
             None => return CaseOut::ok("skipped"),
